@@ -90,9 +90,6 @@ func strmBuildChain(from uint32, n int, seed int64) *strmChain {
 	}
 	other := strmScript(0x15, 9)
 	// outputs that exist before the scan starts (some are spent inside the range)
-	type owned struct {
-		op tx.PrevOut
-	}
 	var spendable []tx.PrevOut
 	for i := 0; i < 3; i++ {
 		h := sha256.Sum256([]byte(fmt.Sprintf("pre-%d-%d", seed, i)))
@@ -967,7 +964,33 @@ func strmConfirm(spec []string) (reproduced bool, detail string) {
 	return false, ""
 }
 
+// a verdict that depends on elapsed time (the in-child 30 s quiescence limit) is kept only if it shows
+// again when the spec is re-run alone, three times at most
+func strmHangReproduces(spec []string) bool {
+	for i := 0; i < 3; i++ {
+		rs, ok := strmChild([]string{"run " + strings.Join(spec, " ")}, 1, strmStall)
+		if !ok {
+			return true
+		}
+		for _, res := range rs {
+			for _, d := range res.direct {
+				if strings.HasPrefix(d, "HANG") {
+					return true
+				}
+			}
+		}
+	}
+	return false
+}
+
 func (r *Runner) strmAdd(res *strmResult, tag string) {
+	for i, d := range res.direct {
+		if strings.HasPrefix(d, "HANG") && len(res.spec) == 9 && !strmHangReproduces(res.spec) {
+			res.direct = append(res.direct[:i:i], res.direct[i+1:]...)
+			r.res.Notes = append(r.res.Notes, "a 30 s quiescence timeout did not reproduce in isolation: "+strings.Join(res.spec, " "))
+			break
+		}
+	}
 	args := append(append([]string{}, res.spec...), res.events)
 	c := &Case{Op: "stream.validate", Args: args, Go: "ok valid", Mode: Full, Direct: res.direct, NonTrivial: true, Tag: tag}
 	if res.crashed {
@@ -1166,7 +1189,7 @@ func runC16(r *Runner) string {
 
 	// 3. seeded random schedules of larger configurations
 	cmds = nil
-	total := r.N(1200, 30000)
+	total := r.N(2400, 30000)
 	per := 5
 	for i := 0; i < total/per; i++ {
 		mode := []string{"o", "u", "x"}[r.rng.Intn(3)]
